@@ -159,6 +159,13 @@ class IntroWorld(NatWorld):
             box = self.add_box("N", "9.9.9.9", ta, ports)
             self._mk("A", keys[0], ta, box, None, "192.168.1.2", 5000)
             self._mk("C", keys[2], tc, box, None, "192.168.1.3", 6000)
+        elif cfg.get("twin"):
+            # A2 is a second node behind A's NAT box (same public IP, another mapped port)
+            assert ta != "none"
+            box_a = self.add_box("NA", "5.5.5.5", ta, ports)
+            self._mk("A", keys[0], ta, box_a, None, "192.168.1.2", 5000)
+            self._mk("A2", keys[6], ta, box_a, None, "192.168.1.9", 5001)
+            self._mk("C", keys[2], tc, None, "6.6.6.6", "10.0.2.3", 6000)
         else:
             self._mk("A", keys[0], ta, None, "5.5.5.5", "192.168.1.2", 5000)
             self._mk("C", keys[2], tc, None, "6.6.6.6", "10.0.2.3", 6000)
@@ -361,6 +368,36 @@ def run_one(cfg: dict, schedule: tuple, seed: int, depth: int, post: bool = Fals
             w.introduced = None
             w.offered = None
             w.force_pick = None
+        if cfg.get("twin"):
+            # A2 (behind A's NAT) registers with B and is introduced to the same peer by a request that carries the very
+            # identifier A's request is going to carry (two freshly started nodes count from the same global time);
+            # afterwards B has forgotten A2 again (churn), so that B's candidates are what they were
+            w.request_intro("A2", B_ADDR, style_of(cfg, "A"))
+            w.flush()
+            ov_2 = w.ov["A2"]
+            pb2 = next((p for p in ov_2.get_peers() if w.name_of(p) == "B"), None)
+            if pb2 is None:
+                viol.append(("warmup-failed", f"{cfg}: A2 does not know B after walking to it; drops: {fmt_drops(w, 0)}"))
+                return {"viol": viol, "avail": [], "obs": ("warmup-failed",), "trace": []}
+            w.force_pick = 1            # B's candidates for A2, sorted by name, are [A, C, ...]
+            w.call("A2", ov_2.get_new_introduction, pb2)
+            twin_id = ov_2.global_time % 65536           # the identifier that request carried
+            w.flush()
+            w.walk_all("A2")
+            w.flush()
+            twin_ok = "C" in w.peers_of("A2") if w.introduced == "C" else None
+            net_b = w.nodes["B"].network
+            for p in [p for p in net_b.verified_peers if w.name_of(p) == "A2"]:
+                net_b.remove_peer(p)
+            w.introduced = None
+            w.offered = None
+            w.force_pick = None
+            # A's next request carries the same 16-bit identifier (its clock is one wrap-around ahead of A2's)
+            w.nodes["A"].my_peer.update_clock(twin_id + 65536 - 1)
+            if twin_ok is False:
+                viol.append(("warmup-failed", f"{cfg}: the twin's own introduction round did not connect A2 and C; "
+                                              f"drops: {fmt_drops(w, 0)}"))
+                return {"viol": viol, "avail": [], "obs": ("warmup-failed",), "trace": []}
         learnt = {n: tuple(w.ov[n].my_estimated_wan) == w.public_address_of(n) for n in order if n != "D1" or not b_walked}
         b_knows = w.peers_of("B")
         w.expire_sessions(B_ADDR)
@@ -626,7 +663,14 @@ def base_configs(thorough: bool) -> list[dict]:
             if thorough:
                 out.append(variant(*p, style, 3, "warm", "x-walked", start="reunion"))
                 out.append(variant(*p, style, 1, "warm", "x-walked", start="reunion-both"))
+    # a second requester behind A's NAT was introduced to the same peer just before, with the same request identifier
+    for style in ("old", "new"):
+        for ta in (NAT_KINDS if thorough else ("full", "port")):
+            for tc in NAT_KINDS:
+                if ta != "none":
+                    out.append(variant("diff", ta, tc, style, 1, "warm", "x-walked", twin=True))
     for c in out:
+        c.setdefault("twin", False)
         c.setdefault("remap", "none")
         c.setdefault("start", "fresh")
         c.setdefault("shadow", False)
